@@ -1,0 +1,8 @@
+//go:build verif
+
+package stream
+
+// Accessors for the verification harness (/verif). Compiled only with -tags verif.
+
+// VerifEncodeKey exposes encodeKey (join key of a single value or a []any tuple).
+func VerifEncodeKey(key any) string { return encodeKey(key) }
